@@ -30,6 +30,8 @@ prop_mod!(c17, "c17.rs");
 #[cfg(all(descriptive_gate, not(feature = "shuttle")))]
 prop_mod!(c18, "c18.rs");
 #[cfg(all(descriptive_gate, not(feature = "shuttle")))]
+prop_mod!(c19, "c19.rs");
+#[cfg(all(descriptive_gate, not(feature = "shuttle")))]
 prop_mod!(c20, "c20.rs");
 
 fn dispatch(env: &common::Env) -> (&'static str, Vec<common::Sub>) {
@@ -62,6 +64,8 @@ fn dispatch(env: &common::Env) -> (&'static str, Vec<common::Sub>) {
         "C17" => (c17::LEVEL, c17::subs(env)),
         #[cfg(all(descriptive_gate, not(feature = "shuttle")))]
         "C18" => (c18::LEVEL, c18::subs(env)),
+        #[cfg(all(descriptive_gate, not(feature = "shuttle")))]
+        "C19" => (c19::LEVEL, c19::subs(env)),
         #[cfg(all(descriptive_gate, not(feature = "shuttle")))]
         "C20" => (c20::LEVEL, c20::subs(env)),
         other => panic!("no harness for property {other} in this build"),
